@@ -122,8 +122,9 @@ def gen_cases(tier, seed):
                         for pos in range(r + 1):
                             for order in itertools.permutations(range(r + 1)):
                                 for chunk in ((None, 1) if r == 2 else (None,)):
-                                    cases.append(dict(base, fault="bad-input", kind=kind, valid=list(sub), pos=pos,
-                                                      order=list(order), chunk=chunk))
+                                    for cont in ("list", "gen"):  # inputs is an Iterable: one-shot iterators too
+                                        cases.append(dict(base, fault="bad-input", kind=kind, valid=list(sub), pos=pos,
+                                                          order=list(order), chunk=chunk, cont=cont))
             for agg in ("const-short", "const-long", "krum", "tm", "raises", "wrong-length"):
                 for sub in ([0], [1, 2], [0, 1, 2], None):
                     for chunk in (None, 1):
@@ -155,11 +156,12 @@ def gen_cases(tier, seed):
                     for i in range(ntasks):
                         cases.append(dict(base, fault="dup-taskparam", task=i, chunk=chunk))
                     for kind in ("nonleaf", "nograd"):
-                        for pos in range(3):
-                            cases.append(dict(base, fault="bad-shared", kind=kind, pos=pos, chunk=chunk))
-                        for i in range(ntasks):
-                            for pos in range(2):
-                                cases.append(dict(base, fault="bad-taskparam", kind=kind, task=i, pos=pos, chunk=chunk))
+                        for cont in ("list", "gen"):
+                            for pos in range(3):
+                                cases.append(dict(base, fault="bad-shared", kind=kind, pos=pos, chunk=chunk, cont=cont))
+                            for i in range(ntasks):
+                                for pos in range(2):
+                                    cases.append(dict(base, fault="bad-taskparam", kind=kind, task=i, pos=pos, chunk=chunk, cont=cont))
                             cases.append(dict(base, fault="bad-taskparam-only", kind=kind, task=i, chunk=chunk))
     for c in cases:
         c["seed"] = seed
@@ -192,7 +194,7 @@ def _run_bw(case):
         bad = P["nonleaf"] if case["kind"] == "nonleaf" else P["nograd"]
         lst = list(valid)
         lst.insert(case["pos"], bad)
-        kw["inputs"] = lst
+        kw["inputs"] = (t for t in lst) if case.get("cont") == "gen" else lst
         rank = {id(t): case["order"][j] for j, t in enumerate(lst)}
         would_write = len(valid) > 0
     elif f == "agg-reject":
@@ -281,6 +283,9 @@ def _run_mtl(case):
     elif f == "bad-taskparam-only":
         bad = P["q"] if case["kind"] == "nonleaf" else P["nograd"]
         kw["tasks_params"][case["task"]] = [bad]
+    if case.get("cont") == "gen":
+        kw["shared_params"] = (t for t in kw["shared_params"])
+        kw["tasks_params"] = [(t for t in tp) for tp in kw["tasks_params"]]
     before = _snapshot(P["all"])
     exc = None
     try:
@@ -292,7 +297,7 @@ def _run_mtl(case):
 
 
 def _sig(case):
-    keys = ["ep", "fault", "kind", "agg", "where", "delta"]
+    keys = ["ep", "fault", "kind", "agg", "where", "delta", "cont"]
     return ":".join(str(case[k]) for k in keys if k in case)
 
 
